@@ -22,10 +22,10 @@ Theorem connect_interval_spec sg dg sh wk : (sg < length gt)%nat -> (dg < length
     (forall b, In b (gchain gt sg) -> In b (gchain gt dg) -> In b (gchain gt c)) /\
     if negb (wk =? 0)%Z && Nat.eqb c 0 then connect_interval gt sg dg sh wk = CErr CScenarioError
     else exists d, connect_interval gt sg dg sh wk = COk d /\ wfI d /\
-         ipre d = depth gt sg /\ icut d = depth gt c /\ length (itiers d) = depth gt dg /\
-         (forall i, (i < depth gt dg)%nat -> nth i (itiers d) 0%Z =
-             if Nat.eqb i 0 then (if negb (wk =? 0)%Z && Nat.eqb (depth gt c) 1 then wk else sh)
-             else if negb (wk =? 0)%Z && Nat.eqb i (depth gt c - 1) then wk else 0%Z).
+         ipre d = gdepth gt sg /\ icut d = gdepth gt c /\ length (itiers d) = gdepth gt dg /\
+         (forall i, (i < gdepth gt dg)%nat -> nth i (itiers d) 0%Z =
+             if Nat.eqb i 0 then (if negb (wk =? 0)%Z && Nat.eqb (gdepth gt c) 1 then wk else sh)
+             else if negb (wk =? 0)%Z && Nat.eqb i (gdepth gt c - 1) then wk else 0%Z).
 Proof.
   intros Hs Hd. destruct (group_path_total gt WF sg dg Hs Hd) as (a & dd & c & G & _).
   destruct (group_path_lca gt WF sg dg a dd c Hs Hd G) as (I1 & I2 & I3 & D1 & D2 & Hc).
@@ -37,29 +37,29 @@ Proof.
   - destruct (parent gt c) as [p|] eqn:Ep.
     + assert (Hc0 : c <> 0%nat) by (intros ->; rewrite (parent_root gt WF) in Ep; discriminate).
       destruct (Nat.eqb_spec c 0); [contradiction|].
-      assert (P4 : (1 <= depth gt p)%nat) by (apply depth_pos; auto; pose proof (parent_lt gt WF c p Hc Ep); lia).
-      destruct (Nat.ltb_spec (depth gt c) 2); [lia|].
-      set (tiers := set_nth (depth gt c - 1) wk (if negb (sh =? 0)%Z then set_nth 0 sh (repeat 0%Z (depth gt dg)) else repeat 0%Z (depth gt dg))).
-      assert (Lt : length tiers = depth gt dg).
+      assert (P4 : (1 <= gdepth gt p)%nat) by (apply depth_pos; auto; pose proof (parent_lt gt WF c p Hc Ep); lia).
+      destruct (Nat.ltb_spec (gdepth gt c) 2); [lia|].
+      set (tiers := set_nth (gdepth gt c - 1) wk (if negb (sh =? 0)%Z then set_nth 0 sh (repeat 0%Z (gdepth gt dg)) else repeat 0%Z (gdepth gt dg))).
+      assert (Lt : length tiers = gdepth gt dg).
       { unfold tiers. rewrite set_nth_length. destruct (negb (sh =? 0)%Z); rewrite ?set_nth_length, repeat_length; reflexivity. }
-      assert (W : wfIb (mkI (depth gt sg) (depth gt c) tiers) = true).
+      assert (W : wfIb (mkI (gdepth gt sg) (gdepth gt c) tiers) = true).
       { unfold wfIb; cbn [ipre icut itiers]. rewrite Lt. rewrite !andb_true_iff, !Nat.leb_le. lia. }
       rewrite W. eexists. split; [reflexivity|]. split; [apply wfIb_iff; exact W|]. cbn [ipre icut itiers].
       split; [reflexivity|]. split; [reflexivity|]. split; [exact Lt|].
-      intros i Hi. destruct (Nat.eqb_spec (depth gt c) 1); [lia|]. cbn [andb].
-      unfold tiers. destruct (Nat.eqb_spec i (depth gt c - 1)) as [->|Hne].
+      intros i Hi. destruct (Nat.eqb_spec (gdepth gt c) 1); [lia|]. cbn [andb].
+      unfold tiers. destruct (Nat.eqb_spec i (gdepth gt c - 1)) as [->|Hne].
       * rewrite set_nth_nth by (destruct (negb (sh =? 0)%Z); rewrite ?set_nth_length, repeat_length; lia).
-        destruct (Nat.eqb_spec (depth gt c - 1) 0); [lia|reflexivity].
+        destruct (Nat.eqb_spec (gdepth gt c - 1) 0); [lia|reflexivity].
       * rewrite set_nth_other by lia. destruct (Nat.eqb_spec i 0) as [->|Hi0].
         -- destruct (sh =? 0)%Z eqn:Es; cbn [negb].
            ++ apply Z.eqb_eq in Es. subst. apply nth_repeat.
            ++ apply set_nth_nth. rewrite repeat_length. lia.
         -- destruct (negb (sh =? 0)%Z); rewrite ?set_nth_other by lia; apply nth_repeat.
     + pose proof (parent_none gt WF c Hc Ep). subst. reflexivity.
-  - set (tiers := (if negb (sh =? 0)%Z then set_nth 0 sh (repeat 0%Z (depth gt dg)) else repeat 0%Z (depth gt dg))).
-    assert (Lt : length tiers = depth gt dg).
+  - set (tiers := (if negb (sh =? 0)%Z then set_nth 0 sh (repeat 0%Z (gdepth gt dg)) else repeat 0%Z (gdepth gt dg))).
+    assert (Lt : length tiers = gdepth gt dg).
     { unfold tiers. destruct (negb (sh =? 0)%Z); rewrite ?set_nth_length, repeat_length; reflexivity. }
-    assert (W : wfIb (mkI (depth gt sg) (depth gt c) tiers) = true).
+    assert (W : wfIb (mkI (gdepth gt sg) (gdepth gt c) tiers) = true).
     { unfold wfIb; cbn [ipre icut itiers]. rewrite Lt. rewrite !andb_true_iff, !Nat.leb_le. lia. }
     rewrite W. eexists. split; [reflexivity|]. split; [apply wfIb_iff; exact W|]. cbn [ipre icut itiers].
     split; [reflexivity|]. split; [reflexivity|]. split; [exact Lt|].
@@ -128,7 +128,7 @@ Theorem siblings_interval g1 g2 p f : (g1 < length gt)%nat -> (g2 < length gt)%n
   parent gt g1 = Some p -> parent gt g2 = Some p -> g1 <> g2 ->
   lca gt g1 g2 = Some p /\
   (weak f = true -> p = 0%nat -> is_rejected (connect_one gt g1 g2 f) = true) /\
-  (forall d, connect_interval gt g1 g2 (shifted f) (if weak f then 1 else 0)%Z = COk d -> icut d = depth gt p).
+  (forall d, connect_interval gt g1 g2 (shifted f) (if weak f then 1 else 0)%Z = COk d -> icut d = gdepth gt p).
 Proof.
   intros H1 H2 P1 P2 Hne. pose proof (siblings_common_parent gt WF g1 g2 p H1 H2 P1 P2 Hne) as G.
   assert (L : lca gt g1 g2 = Some p) by (unfold lca; rewrite G; reflexivity).
